@@ -252,7 +252,7 @@ def extract(unit, enums, sigs):
         base = [t for t in ty if t.t not in ('&', 'const')]
         bty = re.sub(r'\s+', ' ', render(base).strip())
         params.append((bty, nm.t, ref or ptr, cst))
-        if ref and bty in ('double', 'ndsize_t', 'size_t', 'bool', 'int'):
+        if ref and bty in SCALARS:
             ctx.env[nm.t] = (bty, 'param')
         else:
             ctx.env[nm.t] = (bty.replace(' *', '').replace('*', '').strip(), ref or ptr)
